@@ -2,7 +2,7 @@
    implementation's trace.  The observer keeps which timers are armed (and with what interval)
    purely from the events and the expiries the application reports. *)
 From MQ Require Import Base.Prelude Alloc.Alloc Framing.Framing Conn.Types Conn.TopicAlias Conn.ConnRecord
-                       Conn.Step Corr.Tok Corr.ConnCodec Corr.ConnCorr Corr.ConnTrace Mon.Proj.
+                       Conn.Step Corr.Tok Corr.ConnCodec Corr.ConnCorr Corr.ConnTrace Mon.Proj Mon.MonGate.
 
 Record armed := mkArmed { ar_send : option N; ar_recv : option N; ar_resp : option N;
                          (* what decides the client's PINGREQ interval, learnt from operations and events only *)
@@ -106,7 +106,14 @@ Definition judge_c15 (g : cfg) (a : armed) (o : obs) : list N * armed :=
         | ORecv _ _ =>
           (* server side: every accepted packet re-arms the receive timer with 1.5 x keep-alive, never for 0 *)
           let acc := filter (fun p => negb ((k_type p =? T_PINGRESP) || (k_type p =? T_DISCONNECT) || (k_type p =? T_CONNACK))) (notifies evs) in
-          if negb (c_is_client post) && negb (match acc with [] => true | _ => false end) && negb (existsb is_close evs) then
+          (* ... and a protocol-level duplicate that is answered (PUBREC for a repeated QoS 2 PUBLISH) is accepted too *)
+          let answered := match (match ob_op o with
+                                  | ORecv bytes (PROk p) => match completed_frame (ob_pre o) bytes with Some _ => Some p | None => None end
+                                  | _ => None end) with
+                          | Some p => (k_type p =? T_PUBLISH) && negb (match sends evs with [] => true | _ => false end)
+                                      && (match errors evs with [] => true | _ => false end)
+                          | None => false end in
+          if negb (c_is_client post) && (negb (match acc with [] => true | _ => false end) || answered) && negb (existsb is_close evs) then
             let to := c_pingreq_recv_to post in
             if 0 <? to then
               (match rev (resets_of TPingreqRecv evs) with
